@@ -55,7 +55,7 @@ pub fn run_c05(cx: &Ctx) -> i32 {
     let texts = space::texts(&alphabet, max_len);
     let tallies = par::run_workers(32, |_w, claimer| {
         engine::quiet_panics();
-        engine::set_sweep_horizons(100_000, 2_000);
+        engine::set_sweep_horizons(40_000, 2_000);
         let mut t = Tally::new();
         space.for_each(claimer, &mut |node, tag| {
             let facts = ast::facts(node);
@@ -192,7 +192,7 @@ pub fn run_c09(cx: &Ctx) -> i32 {
     let texts = space::texts(&alphabet, max_len);
     let tallies = par::run_workers(32, |_w, claimer| {
         engine::quiet_panics();
-        engine::set_sweep_horizons(100_000, 2_000);
+        engine::set_sweep_horizons(40_000, 2_000);
         let mut t = Tally::new();
         space.for_each(claimer, &mut |node, tag| {
             let facts = ast::facts(node);
